@@ -187,7 +187,10 @@ class Executor(Engine):
     def assign(self, tgt, val, st, results, line):
         if isinstance(tgt, ast.Name):
             if tgt.id in self.cur.locals:
-                val = coerce(val, self.cur.ty(self.cur.locals[tgt.id]))
+                try:
+                    val = coerce(val, self.cur.ty(self.cur.locals[tgt.id]))
+                except OutOfSubset:
+                    pass      # the variable is re-bound to a value of another type (`xs = sorted(xs)`): the hint was for its first use
             st.env[tgt.id] = val
             return st
         if isinstance(tgt, (ast.Tuple, ast.List)):
@@ -1050,6 +1053,8 @@ class Executor(Engine):
             pc += a + [g]
             req_terms.append(g)
         for lab, text in _labelled(self.axioms):
+            if c.d.get('axioms') is not None and lab not in c.d['axioms']:
+                continue          # the contract names the module axioms it needs (fewer quantified hypotheses: more stable proofs)
             g, a = self.spec_bool(text, {}, old={}, ghosts={})
             pc += a + [g]
         c.measure_val = None
